@@ -15,6 +15,7 @@ DOC = {
         'C12.R1': 'Key = {file_id, chunk_pos, chunk_len} covering all FileChunk fields; tree id formatted from algorithm and transform command; FileHasher::new_cached passes its own algorithm and transform.command_str',
         'C12.R2': 'HashCache::get: Some only if modified_timestamp_ms == current and file_len == current (equality tests, both guarding the hit)',
         'C12.R3': 'put and get compute the time stamp with the same conversion chain (modified -> duration_since(UNIX_EPOCH) -> as_millis), and the chain has no lossy step (fallback constant, clamp, saturation): different modification times give different stamps',
+        'C12.R5': 'a cached hash is returned only for a file that can still be opened: on the hit path of hash_file / hash_transformed the file is opened (error propagated) before the cached value is returned - stat() needs no read permission, so without it an unreadable file is reported from the cache while the uncached run warns and leaves it out',
         'C12.R4': 'hash_file / hash_transformed: load_hash and store_hash use the same key and metadata; metadata is captured before hashing; store follows a successful hash',
     },
     'not_decided': 'inode reuse within one millisecond; sled durability; that every content change changes mtime or length (premise)',
@@ -30,6 +31,7 @@ def run(ctx):
     r2(ctx)
     r3(ctx)
     r4(ctx)
+    r5(ctx)
     from .common import run_mandatory
     run_mandatory(ctx, 'C12')
 
@@ -56,7 +58,9 @@ def r1(ctx):
                 src[f] = sl
                 used |= {x for x in sl.field_names() if x in cf}
             id_ok = any(sl.has_call(r'FileMetadata::file_id$') for sl in src.values())
-            missing = [f for f in cf if f not in used and f != 'path']
+            # `path` is represented by the file id; `file_len` is not a coordinate of the chunk but the expected length of the whole file,
+            # which HashCache::get validates against the stored length (C12.R2)
+            missing = [f for f in cf if f not in used and f not in ('path', 'file_len')]
             ctx.check(not missing and id_ok, rule, kb.path + '|chunk-fields', kb.where(s['line']), 'the key contains %s of the chunk and the file id (for the path)' % sorted(used), 'chunk field(s) %s do not enter the cache key: hashes of different chunks of one file would be confused' % missing)
             # pos -> chunk_pos, len -> chunk_len (not swapped)
             okm = 'pos' in src.get('chunk_pos', backslice(kb, [])).field_names() and 'len' in src.get('chunk_len', backslice(kb, [])).field_names()
@@ -285,3 +289,37 @@ def r4(ctx):
         inner = [lib.body(p) for p in lib.closures_of(ldb.path)]
         ok = any(x.calls(r'HashCache::get$') for x in [ldb] + inner)
         ctx.check(ok, rule, ldb.path, ldb.where(), 'load_hash = cache.get(key, metadata)', 'load_hash does not go through HashCache::get')
+
+
+def r5(ctx):
+    rule = 'C12.R5'
+    lib = ctx.lib
+    from .common import err_handling
+    for fn in ('hash_file', 'hash_transformed'):
+        b = ctx.need_body(rule, HF + fn)
+        if b is None:
+            continue
+        ld = b.calls(r"::load_hash$")
+        if not ld:
+            ctx.missing(rule, 'load_hash in ' + fn, b.where())
+            continue
+        # the hit edge: Some(..) of load_hash's result
+        hit = None
+        for (bbx, idx, what) in b.operand_uses(ld[0].dest[0]):
+            if what[0] == 'stmt' and what[1]['rv']['k'] == 'disc':
+                for (b2, i2, w2) in b.operand_uses(what[1]['p'][0]):
+                    if w2[0] == 'switch' and hit is None:      # the first test; later ones are drop-flag reads
+                        m = dict(zip(w2[1]['vals'], w2[1]['tgts']))
+                        hit = m.get(1, w2[1]['tgts'][-1] if 1 not in m else None)
+        if hit is None:
+            ctx.missing(rule, 'match on the result of load_hash in ' + fn, ld[0].where())
+            continue
+        opens = [c for c in b.calls(r'hasher::open_noatime$|hasher::open$|^std::fs::File::open$|OpenOptions::open$') if c.bb == hit or b.dominates(hit, c.bb)]
+        good = False
+        for o in opens:
+            cat, det = err_handling(b, o)
+            if cat in ('PROPAGATED', 'RETURNED', 'ERR-RETURNED'):
+                good = True
+        ctx.check(good, rule, b.path + '|hit-needs-readable-file', (opens[0].where() if opens else ld[0].where()), 'on a cache hit the file is opened first, a failure is returned',
+                  'a cache hit returns the stored hash without touching the file: `chmod 000 t/a` (mtime and length unchanged) leaves t/a in the groups of `group --cache`, without a warning, while the uncached '
+                  'run reports "Permission denied" and leaves it out')
